@@ -19,8 +19,8 @@ from . import api, models, rx
 rx.install(models)
 
 Z3_TIMEOUT_MS = int(os.environ.get('PYVC_Z3_TIMEOUT_MS', '20000'))
-Z3_FIRST_MS = int(os.environ.get('PYVC_Z3_FIRST_MS', '3000'))
-CVC5_TIMEOUT_S = int(os.environ.get('PYVC_CVC5_TIMEOUT_S', '40'))
+Z3_FIRST_MS = int(os.environ.get('PYVC_Z3_FIRST_MS', '1500'))
+CVC5_TIMEOUT_S = int(os.environ.get('PYVC_CVC5_TIMEOUT_S', '30'))
 MAX_PATHS = int(os.environ.get('PYVC_MAX_PATHS', '4000'))
 
 
@@ -65,9 +65,17 @@ class PathResult:
 
 
 def run_path(unit, decisions, contracts):
-    """Execute one path. Returns (ctx, outcome, env_values)"""
     reset_names()
     ctx = Ctx(decisions)
+    try:
+        return _run_path(unit, decisions, contracts, ctx)
+    except PathInfeasible:
+        # the alternatives discovered before the path died must still be explored
+        return ctx, 'infeasible', {}, None, None
+
+
+def _run_path(unit, decisions, contracts, ctx):
+    """Execute one path. Returns (ctx, outcome, env_values)"""
     ip = Interp(ctx, contracts=contracts, verify_target=None)
     ip.hooks['max_unroll'] = unit.max_unroll
     ip.hooks.update(unit.hooks)
@@ -173,67 +181,93 @@ def run_path(unit, decisions, contracts):
 
 
 def discharge(ob, vals, unit):
+    """Decide one obligation; a conjunctive goal is split and every conjunct decided on its own (smaller queries)."""
+    g = z3.simplify(ob.goal)
+    parts = conjuncts(g)
+    if len(parts) <= 1:
+        return discharge1(ob, vals, unit)
+    t0 = time.time()
+    from .ctx import Obligation
+    backends = set()
+    for k, part in enumerate(parts):
+        sub = Obligation(ob.name, ob.pc, part, ob.where, ob.kind)
+        discharge1(sub, vals, unit)
+        if sub.status != 'discharged':
+            ob.status, ob.backend, ob.model = sub.status, sub.backend, sub.model
+            ob.extra = ((ob.extra or '') + f' conjunct {k + 1}/{len(parts)}: ' + str(part)[:300]).strip()
+            ob.secs = round(time.time() - t0, 3)
+            return
+        backends.add(sub.backend)
+    ob.status = 'discharged'
+    ob.backend = '+'.join(sorted(b for b in backends if b))
+    ob.secs = round(time.time() - t0, 3)
+
+
+def conjuncts(g):
+    out = []
+
+    def walk(t):
+        if z3.is_and(t):
+            for i in range(t.num_args()):
+                walk(t.arg(i))
+        else:
+            out.append(t)
+    walk(g)
+    return out
+
+
+def discharge1(ob, vals, unit):
     """Decide one obligation. status: 'discharged' | 'failed' | 'undecided'"""
     t0 = time.time()
     g = z3.simplify(ob.goal)
     if z3.is_true(g):
         ob.status, ob.backend, ob.secs = 'discharged', 'simplifier', 0.0
         return
-    s = z3.Solver()
-    s.set('timeout', Z3_FIRST_MS)
-    for c in ob.pc:
-        s.add(c)
-    s.add(z3.Not(g))
-    r = s.check()
+    from . import smt
+    cs = list(ob.pc) + [z3.Not(g)]
+    stringy = any(smt.has_strings(c) for c in cs)
+    order = ['cvc5-quick', 'z3-quick', 'cvc5', 'z3'] if stringy else ['z3-quick', 'cvc5-quick', 'z3', 'cvc5']
+    tried = []
+    for be in order:
+        if be.startswith('cvc5'):
+            r = smt.cvc5_check(cs, 2500 if be.endswith('quick') else CVC5_TIMEOUT_S * 1000)
+            tried.append(f'{be}:{r[:12]}')
+            if r == 'unsat':
+                ob.status, ob.backend = 'discharged', 'cvc5-1.4.0'
+                break
+            if r == 'sat' and not stringy:
+                pass        # take the counter-model from z3 below (same query)
+            continue
+        s = z3.Solver()
+        s.set('timeout', Z3_FIRST_MS if be.endswith('quick') else Z3_TIMEOUT_MS)
+        if not be.endswith('quick'):
+            s.set('random_seed', 7)
+        for c in cs:
+            s.add(c)
+        r = s.check()
+        tried.append(f'{be}:{r}')
+        if r == z3.unsat:
+            ob.status, ob.backend = 'discharged', 'z3-' + z3.get_version_string()
+            break
+        if r == z3.sat:
+            m = s.model()
+            hints = small_hints(vals)
+            if hints:
+                s.push()
+                s.set('timeout', 2000)
+                s.add(*hints)
+                if s.check() == z3.sat:
+                    m = s.model()
+                s.pop()
+            ob.status, ob.backend = 'failed', 'z3-' + z3.get_version_string()
+            try:
+                ob.model = {k: api.concretize(m, v) for k, v in vals.items()}
+            except Exception as e:   # model projection is best effort
+                ob.model = {'<projection-error>': repr(e)}
+            break
+    else:
+        ob.status, ob.backend = 'undecided', ' '.join(tried)
     ob.secs = round(time.time() - t0, 3)
-    if r == z3.unsat:
-        ob.status, ob.backend = 'discharged', 'z3-' + z3.get_version_string()
-        return
-    if r == z3.sat:
-        m = s.model()
-        hints = small_hints(vals)
-        if hints:
-            s.push()
-            s.set('timeout', 2000)
-            s.add(*hints)
-            if s.check() == z3.sat:
-                m = s.model()
-            s.pop()
-        ob.status, ob.backend = 'failed', 'z3-' + z3.get_version_string()
-        try:
-            ob.model = {k: api.concretize(m, v) for k, v in vals.items()}
-        except Exception as e:   # model projection is best effort
-            ob.model = {'<projection-error>': repr(e)}
-        return
-    # unknown -> cvc5
-    smt2 = s.to_smt2()
-    r2, out = run_cvc5(smt2)
-    ob.secs = round(time.time() - t0, 3)
-    if r2 == 'unsat':
-        ob.status, ob.backend = 'discharged', 'cvc5'
-        return
-    # second z3 attempt with a different configuration
-    s2 = z3.Solver()
-    s2.set('timeout', Z3_TIMEOUT_MS)
-    s2.set('smt.string_solver', 'seq')
-    s2.set('random_seed', 7)
-    for c in ob.pc:
-        s2.add(c)
-    s2.add(z3.Not(g))
-    r3 = s2.check()
-    ob.secs = round(time.time() - t0, 3)
-    if r3 == z3.unsat:
-        ob.status, ob.backend = 'discharged', 'z3-seed7'
-        return
-    if r3 == z3.sat:
-        ob.status, ob.backend = 'failed', 'z3-seed7'
-        try:
-            ob.model = {k: api.concretize(s2.model(), v) for k, v in vals.items()}
-        except Exception as e:
-            ob.model = {'<projection-error>': repr(e)}
-        return
-    ob.status, ob.backend = 'undecided', f'z3:{r} cvc5:{r2}'
-    ob.extra = (ob.extra or '') + ' ' + s.reason_unknown()
 
 
 def small_hints(vals):
@@ -304,7 +338,7 @@ def source_hash(unit):
         return None, path, None
 
 
-def run_unit(unit, contracts=None):
+def run_unit(unit, contracts=None, work=None, budget=None):
     """Explore every path; returns a plain-data result dict."""
     t0 = time.time()
     contracts = dict(contracts or {})
@@ -316,20 +350,27 @@ def run_unit(unit, contracts=None):
     }
     h, path, line = source_hash(unit)
     res['source_hash'], res['file'], res['line'] = h, path, line
-    work = [[]]
-    seen_names = {}
+    work = [list(w) for w in work] if work is not None else [[]]
+    res['pending'] = []
     try:
         while work:
+            if budget is not None and res['paths'] >= budget:
+                res['pending'] = work
+                break
             decisions = work.pop()
             if res['paths'] >= MAX_PATHS:
                 raise Unsupported(f"path budget {MAX_PATHS} exceeded")
             if unit.timeout_s and time.time() - t0 > unit.timeout_s:
                 raise Unsupported(f"unit time budget {unit.timeout_s}s exceeded")
-            try:
-                ctx, outcome, vals, result, exc = run_path(unit, decisions, contracts)
-            except PathInfeasible:
+            ctx, outcome, vals, result, exc = run_path(unit, decisions, contracts)
+            if outcome == 'infeasible':
+                work.extend(ctx.pending)
+                res['infeasible'] = res.get('infeasible', 0) + 1
                 continue
             res['paths'] += 1
+            if os.environ.get('PYVC_PROGRESS'):
+                import sys as _s
+                print(f"  path {res['paths']} {outcome} dec={decisions} feas={ctx.feas_checks} obl={len(ctx.obligations)} t={time.time()-t0:.1f}", file=_s.stderr, flush=True)
             if outcome == 'return':
                 res['returns'] += 1
             elif outcome == 'raise':
